@@ -254,31 +254,46 @@ theorem rsqrt_constants_match :
     Gen.rsqrtLut.length = 256 ∧ Gen.rsqrtLut[0]? = some 0 ∧ (∀ v ∈ Gen.rsqrtLut, inI32 v = true) ∧
     ∀ n : Nat, n < 256 → n ≠ 0 → Gen.rsqrtLut[n]? = some (RsqrtRef.rsqrtData (n : Int)) := by decide +kernel
 
-/-- `create_lut_rsqrt_int8_op` with input zero point −128 (real input range starting at 0 — the quantisation of a
-    non-negative tensor): **each of the 256 entries equals the TFLite reference `Rsqrt` int8 kernel**, for every int32
-    output multiplier and Vela shift in `[11, 42]` (scale `1/(√s_in·s_out)` between 2^-12 and 2^20), every output zero point,
-    and lies in `[-128, 127]`.  For other input zero points see `rsqrt_zero_input_witness`. -/
-theorem rsqrt_lut_spec (zpOut mult shift : Int) (hm : inI32 mult = true) (hs : 11 ≤ shift ∧ shift ≤ 42) :
-    rsqrtLut Gen.rsqrtLut (-128) zpOut mult shift =
-      .ok ((codes true).map (RsqrtRef.rsqrtRef (-128) zpOut mult (31 - shift))) ∧
-    ∀ v ∈ (codes true).map (RsqrtRef.rsqrtRef (-128) zpOut mult (31 - shift)), -128 ≤ v ∧ v ≤ 127 := by
+/-- `create_lut_rsqrt_int8_op` for **every input zero point of the int8 range**, every int32 output multiplier and Vela
+    shift in `[11, 42]` (scale `1/(√s_in·s_out)` between 2^-12 and 2^20) and every output zero point: **each entry at a
+    code `x ≥ zp_in` (real input ≥ 0) equals the TFLite reference `Rsqrt` int8 kernel** — in particular real input 0 maps to
+    the maximum 127 whatever the zero point (since /repo commit 18935f5; before it only for zero point −128, see
+    `rsqrt_zero_input_witness`) — the entries at codes below the zero point, where the reference kernel fails its
+    "Rsqrt is only defined for positive values" check, are 127, and all 256 entries lie in `[-128, 127]`. -/
+theorem rsqrt_lut_spec (zpIn zpOut mult shift : Int) (hz : -128 ≤ zpIn ∧ zpIn ≤ 127) (hm : inI32 mult = true)
+    (hs : 11 ≤ shift ∧ shift ≤ 42) :
+    rsqrtLut Gen.rsqrtLut zpIn zpOut mult shift =
+      .ok ((codes true).map (fun x => if x < zpIn then 127 else RsqrtRef.rsqrtRef zpIn zpOut mult (31 - shift) x)) ∧
+    ∀ v ∈ (codes true).map (fun x => if x < zpIn then 127 else RsqrtRef.rsqrtRef zpIn zpOut mult (31 - shift) x),
+      -128 ≤ v ∧ v ≤ 127 := by
   obtain ⟨_, _, hI, htbl⟩ := rsqrt_constants_match
   constructor
-  · exact mapM_ok _ _ _ (fun x hx => rsqrt_entry_eq Gen.rsqrtLut htbl hI zpOut mult shift x hm hs (by
-      have := codes_mem true x hx; simpa [qmin, qmax] using this))
+  · refine mapM_ok _ _ _ (fun x hx => ?_)
+    have hr : -128 ≤ x ∧ x ≤ 127 := by
+      have := codes_mem true x hx; simpa [qmin, qmax] using this
+    by_cases hlt : x < zpIn
+    · simp only [hlt, if_true]
+      exact rsqrt_entry_below Gen.rsqrtLut zpIn zpOut mult shift x hlt
+    · simp only [hlt, if_false]
+      exact rsqrt_entry_eq Gen.rsqrtLut htbl hI zpIn zpOut mult shift x hm hs hz ⟨by omega, hr.2⟩
   · intro v hv
     simp only [List.mem_map] at hv
     obtain ⟨x, _, rfl⟩ := hv
-    unfold RsqrtRef.rsqrtRef
-    simp only []
-    split <;> omega
+    split
+    · omega
+    · unfold RsqrtRef.rsqrtRef
+      simp only []
+      split <;> omega
 
-/-- With an input zero point other than −128 the entry for real input 0 (`x = zp_in`) is **not** the reference's: the
-    reference returns the maximum 127 ("any value close to 0 represents the max output value"), the Python looks up
-    `RSQRT_LUT[0] = 0` and yields the output zero point (only index −128 is forced to 127).  int8, zero points 0 / 5,
-    multiplier 2^30, shift 20, code 0. -/
+/-- Documents the code BEFORE /repo commit 18935f5 (`Lut.rsqrtEntryOld`), i.e. the finding
+    `rsqrt-lut-zero-input-entry-not-max-unless-zp-in-is-minus-128` that the commit repaired — **not** the current code,
+    for which `rsqrt_lut_spec` covers every zero point.  With an input zero point other than −128 the old entry for real
+    input 0 (`x = zp_in`) was not the reference's: the reference returns the maximum 127 ("any value close to 0 represents
+    the max output value"), the old code looked up `RSQRT_LUT[0] = 0` and yielded the output zero point (only index −128
+    was forced to 127); the current model returns 127.  int8, zero points 0 / 5, multiplier 2^30, shift 20, code 0. -/
 theorem rsqrt_zero_input_witness :
-    rsqrtEntry Gen.rsqrtLut 0 5 1073741824 20 0 = .ok 5 ∧ RsqrtRef.rsqrtRef 0 5 1073741824 (31 - 20) 0 = 127 := by decide
+    rsqrtEntryOld Gen.rsqrtLut 0 5 1073741824 20 0 = .ok 5 ∧ RsqrtRef.rsqrtRef 0 5 1073741824 (31 - 20) 0 = 127 ∧
+    rsqrtEntry Gen.rsqrtLut 0 5 1073741824 20 0 = .ok 127 := by decide
 
 /-! ## the exp table of the 8-bit SOFTMAX (`SoftMax.generate_exp_table`) -/
 
@@ -287,11 +302,12 @@ theorem rsqrt_zero_input_witness :
     `prod = double(beta)·double(input_scale)·2^26 = q·2^(26−k) > 1`** (`2^52 ≤ q < 2^53`: every normal double), saturating or
     not, and all 256 table indices: the `min` with `2^31 − 1`, `quantise_scale` vs `QuantizeMultiplierGreaterThanOne`,
     `diff_min`, the shifted difference fits int32 (no assert, no C overflow) and the two exponentials agree.
-    Excluded (hypothesis `hcarry`): the significand of `real_beta` rounds up to the multiplier `2^31`, where the Python
-    *rejects* and TFLite renormalises — `softmax_exp_table_m31_witness`. -/
+    No excluded corner: when the significand of `real_beta` rounds up to the multiplier `2^31` the code (since /repo
+    commit 20248de) renormalises to `(2^30, shift − 1)` exactly as `QuantizeMultiplier` does; the proof splits on
+    `(q + 2^21) / 2^22 = 2^31` inside the non-saturating branch.  What the code did before that commit is
+    `softmax_exp_table_m31_witness`. -/
 theorem softmax_exp_table_spec (q : Nat) (k : Int) (h1 : 2 ^ 52 ≤ q) (h2 : q < 2 ^ 53)
-    (hgt : k - 26 < 0 ∨ q > 2 ^ (k - 26).toNat)
-    (hcarry : ((SoftmaxRef.scaledClamped q k).1 + 2 ^ 21) / 2 ^ 22 ≠ 2 ^ 31) :
+    (hgt : k - 26 < 0 ∨ q > 2 ^ (k - 26).toNat) :
     ∃ t, SoftmaxRef.expTableOfReal (SoftmaxRef.scaledClamped q k).1 (SoftmaxRef.scaledClamped q k).2 = some t ∧
       SoftmaxTable.generateExpTable (.fin false q (26 - k)) = .ok t := by
   by_cases hc : k - 26 ≤ 0 ∨ q > (2 ^ 31 - 1) * 2 ^ (k - 26).toNat
@@ -308,30 +324,35 @@ theorem softmax_exp_table_spec (q : Nat) (k : Int) (h1 : 2 ^ 52 ≤ q) (h2 : q <
   · have hk : 0 < k - 26 := by omega
     have hle : q ≤ (2 ^ 31 - 1) * 2 ^ (k - 26).toNat := by omega
     have hgt' : q > 2 ^ (k - 26).toNat := by omega
-    have hsc : SoftmaxRef.scaledClamped q k = (q, k - 26) := by
-      unfold SoftmaxRef.scaledClamped
-      simp only [hc, if_false]
-    have hcarry' : (q + 2 ^ 21) / 2 ^ 22 ≠ 2 ^ 31 := by rw [hsc] at hcarry; exact hcarry
-    obtain ⟨_, hq, href⟩ := SoftmaxTable.unclamped q k h1 h2 hk hle hgt' hcarry'
-    refine ⟨SoftmaxRef.expTable (((q + 2 ^ 21) / 2 ^ 22 : Nat) : Int) (79 - k).toNat, ?_, ?_⟩
-    · unfold SoftmaxRef.expTableOfReal
-      rw [href]
-    · exact SoftmaxTable.generate_of_pair _ _ _ hq (by omega) (by omega)
+    by_cases hcarry : (q + 2 ^ 21) / 2 ^ 22 = 2 ^ 31
+    · obtain ⟨_, _, href⟩ := SoftmaxTable.unclamped_carry q k h1 h2 hk hle hgt' hcarry
+      refine ⟨SoftmaxRef.expTable 1073741824 (80 - k).toNat, ?_, ?_⟩
+      · unfold SoftmaxRef.expTableOfReal
+        rw [href]
+      · exact SoftmaxTable.generate_carry q k h1 h2 hk hle hgt' hcarry
+    · obtain ⟨_, hq, href⟩ := SoftmaxTable.unclamped q k h1 h2 hk hle hgt' hcarry
+      refine ⟨SoftmaxRef.expTable (((q + 2 ^ 21) / 2 ^ 22 : Nat) : Int) (79 - k).toNat, ?_, ?_⟩
+      · unfold SoftmaxRef.expTableOfReal
+        rw [href]
+      · exact SoftmaxTable.generate_of_pair _ _ _ hq (by omega) (by omega)
 
-/-- In the excluded corner the unchanged code raises and the reference does not (finding
-    `softmax-exp-table-multiplier-2^31-rejected`): whenever the significand of `real_beta` is within `2^-32` of 1,
-    `quantise_scale` returns the unnormalised multiplier `2^31`, the first computed entry trips the int32 assert of
-    `saturating_rounding_mul32`, while `QuantizeMultiplier` yields `(2^30, shift + 1)` and a table.  General in `q, k`;
+/-- Documents the code BEFORE /repo commit 20248de (`SoftmaxTable.generateExpTableOld`), i.e. the finding
+    `softmax-exp-table-multiplier-2^31-rejected` that the commit repaired — **not** the current code, for which
+    `softmax_exp_table_spec` holds in this corner too.  Whenever the significand of `real_beta` is within `2^-32` of 1,
+    `quantise_scale` returns the unnormalised multiplier `2^31`; the old code passed it on and the first computed entry
+    tripped the int32 assert of `saturating_rounding_mul32`, while `QuantizeMultiplier` yields `(2^30, shift + 1)` and a
+    table; the current model returns exactly that table.  General in `q, k`;
     non-vacuous: `q = 2^53 − 2^6`, `k = 58` (beta 10610063·2^-23, input scale 13264529·2^-29). -/
 theorem softmax_exp_table_m31_witness (q : Nat) (k : Int) (h1 : 2 ^ 52 ≤ q) (h2 : q < 2 ^ 53)
     (hk : 0 < k - 26) (hle : q ≤ (2 ^ 31 - 1) * 2 ^ (k - 26).toNat) (hgt : q > 2 ^ (k - 26).toNat)
     (hcarry : (q + 2 ^ 21) / 2 ^ 22 = 2 ^ 31) :
-    SoftmaxTable.generateExpTable (.fin false q (26 - k)) = .error (.fp .assert_) ∧
+    SoftmaxTable.generateExpTableOld (.fin false q (26 - k)) = .error (.fp .assert_) ∧
     SoftmaxRef.expTableOfReal (SoftmaxRef.scaledClamped q k).1 (SoftmaxRef.scaledClamped q k).2 =
-      some (SoftmaxRef.expTable 1073741824 (80 - k).toNat) := by
-  obtain ⟨hq, href⟩ := SoftmaxTable.unclamped_carry q k h1 h2 hk hle hgt hcarry
-  constructor
-  · unfold SoftmaxTable.generateExpTable
+      some (SoftmaxRef.expTable 1073741824 (80 - k).toNat) ∧
+    SoftmaxTable.generateExpTable (.fin false q (26 - k)) = .ok (SoftmaxRef.expTable 1073741824 (80 - k).toNat) := by
+  obtain ⟨_, hq, href⟩ := SoftmaxTable.unclamped_carry q k h1 h2 hk hle hgt hcarry
+  refine ⟨?_, ?_, SoftmaxTable.generate_carry q k h1 h2 hk hle hgt hcarry⟩
+  · unfold SoftmaxTable.generateExpTableOld
     rw [hq]
     have e : (31 : Int) - (31 - (((79 - k).toNat : Nat) : Int)) = ((79 - k).toNat : Nat) := by omega
     simp only [e]
@@ -426,15 +447,17 @@ example : lreluEntry true 3 (-8) 1717986854 32 1 1374389504 35 (-128) = .ok (-13
 example : quantizeFold (-128) 127 3 (-5) 1073741824 29 [-128, 0, 127] = .ok [-128, -11, 127] := by decide
 -- hardswish: int8, ifm scale 0.05 (relu shift 29 < 31: the branch that crashes in the unpatched code), ofm scale 0.04
 example : hardswishEntry true (-3) 5 25600 38 18204 29 127 = .ok 107 ∧ hardswishEntry true (-3) 5 25600 38 18204 29 (-30) = .ok (-3) := by decide
+-- rsqrt: input zero point 3 (not -128), output zero point -128, multiplier 2^30, shift 26: codes below, at and above the zero point
+example : rsqrtEntry Gen.rsqrtLut 3 (-128) 1073741824 26 (-5) = .ok 127 ∧ rsqrtEntry Gen.rsqrtLut 3 (-128) 1073741824 26 3 = .ok 127 ∧
+    rsqrtEntry Gen.rsqrtLut 3 (-128) 1073741824 26 7 = .ok (-120) ∧ RsqrtRef.rsqrtRef 3 (-128) 1073741824 (31 - 26) 7 = -120 := by decide +kernel
 
 -- softmax exp table: beta 1.0, input scale 1/256 -> prod = 2^18 = 2^52·2^(26−60): hypotheses hold, multiplier 2^30, shift 19
 example : (60:Int) - 26 < 0 ∨ (2:Nat) ^ 52 > 2 ^ ((60:Int) - 26).toNat := by decide
-example : ((SoftmaxRef.scaledClamped (2 ^ 52) 60).1 + 2 ^ 21) / 2 ^ 22 ≠ 2 ^ 31 := by decide
 example : SoftmaxRef.quantizeMultiplierGreaterThanOne (SoftmaxRef.scaledClamped (2 ^ 52) 60).1 (SoftmaxRef.scaledClamped (2 ^ 52) 60).2
     = some (1073741824, 19) := by decide
 example : SoftmaxRef.expEntry 1073741824 19 (-(SoftmaxRef.calculateInputRadius 5 19)) (-255) = 793107307 ∧
     SoftmaxRef.expEntry 1073741824 19 (-(SoftmaxRef.calculateInputRadius 5 19)) (-1) = 2139110984 := by decide
--- the excluded corner is inhabited: q = 2^53 − 2^6, k = 58 (beta 10610063·2^-23, input scale 13264529·2^-29)
+-- the carry corner (multiplier rounds up to 2^31; renormalised since 20248de) is inhabited: q = 2^53 − 2^6, k = 58 (beta 10610063·2^-23, input scale 13264529·2^-29)
 example : (2:Nat) ^ 52 ≤ 2 ^ 53 - 2 ^ 6 ∧ 2 ^ 53 - 2 ^ 6 < (2:Nat) ^ 53 ∧ (0:Int) < 58 - 26 ∧
     2 ^ 53 - 2 ^ 6 ≤ (2 ^ 31 - 1) * 2 ^ ((58:Int) - 26).toNat ∧ 2 ^ 53 - 2 ^ 6 > 2 ^ ((58:Int) - 26).toNat ∧
     (2 ^ 53 - 2 ^ 6 + 2 ^ 21) / 2 ^ 22 = 2 ^ 31 := by decide
